@@ -40,6 +40,25 @@ let parse_case (c : string) : (profile * ZT.t * ZT.t) option =
   | ["once"; n] -> Some (POnce (z_of_string n), ZT.zero, ZT.zero)
   | _ -> None
 
+(* list <k> <part> ... <part>: the parts with the time tolerance of each *)
+let parse_list (fs : string list) : ((profile * ZT.t) list) option =
+  match fs with
+  | k :: rest ->
+      let rec go k fs acc =
+        if k = 0 then (if fs = [] then Some (List.rev acc) else None)
+        else
+          let take n = let rec t n l a = if n = 0 then Some (List.rev a, l) else (match l with [] -> None | x :: r -> t (n - 1) r (x :: a)) in t n fs [] in
+          let ar = match fs with "const" :: _ -> 4 | "line" :: _ -> 5 | "step" :: _ -> 6 | "once" :: _ -> 2 | _ -> 0 in
+          if ar = 0 then None else
+          match take ar with
+          | None -> None
+          | Some (part, rest) ->
+              (match parse_case (String.concat " " part) with
+               | Some (p, d, kappa) -> go (k - 1) rest ((p, tol_of d kappa) :: acc)
+               | None -> None) in
+      (match int_of_string_opt k with Some k when k >= 0 -> go k rest [] | _ -> None)
+  | [] -> None
+
 let parse_toks (s : string) : ZT.t list =
   if s = "-" || s = "" then [] else List.map ZT.of_string (String.split_on_char ',' s)
 
@@ -62,7 +81,51 @@ let rec close tol (a : ZT.t list) (b : ZT.t list) =
   | x :: ar, y :: br -> ZT.leq (ZT.abs (ZT.sub x y)) tol && close tol ar br
   | _ -> true   (* common prefix only: the counts are judged by count_ok *)
 
+(* a list profile drained by one consumer: list_spec_b cuts the observed stream into the windows of
+   the parts and judges each by the specification of its own part; finish = sum of the durations *)
+let predict_list (parts : (profile * ZT.t) list) (obs : string) : string * string * bool =
+  let ps = List.map fst parts in
+  let (mline, mtoks, mnan, mfin) =
+    match list_drain ps with
+    | None -> ("out-of-fuel", [], false, ZT.zero)
+    | Some d ->
+        let nan = List.exists (fun t -> t = None) d.d_tokens in
+        let toks = List.map (function Some t -> zt_of_z t | None -> ZT.of_int (-1)) d.d_tokens in
+        (Printf.sprintf "%s %s 1 %d %s" (ZT.to_string (zt_of_z d.d_left)) (ZT.to_string (zt_of_z d.d_finish)) (List.length toks)
+           (if nan then "nan" else toks_str toks), toks, nan, zt_of_z d.d_finish) in
+  match split_blank obs with
+  | [left; fin; post; n; toks] ->
+      let xs = parse_toks toks in
+      let nx = List.length xs in
+      if string_of_int nx <> n then (mline, "BAD:malformed-observation", false)
+      else begin
+        let ok_spec = list_spec_b (List.map (fun (p, t) -> (p, z_of_zt t)) parts) eps (z_of_string left) (List.map z_of_zt xs) (z_of_string fin) in
+        let want_fin = zt_of_z (list_spec_finish ps) in
+        let why =
+          if not ok_spec then begin
+            if not (ZT.equal (ZT.of_string fin) want_fin) then
+              "finish instant is not start + the sum of the parts' durations (want offset " ^ ZT.to_string want_fin ^ ")"
+            else if not (ZT.equal (ZT.of_string left) (ZT.of_int nx)) then "Left() before start differs from the number of tokens"
+            else Printf.sprintf "tokens do not realise the parts of the list profile one after another (observed %d tokens, specification %d)" nx (List.length mtoks)
+          end
+          else if post = "left" then "exhausted schedule reports Left() <> 0"
+          else if post <> "1" then "exhausted schedule does not keep reporting start+duration with ok=false"
+          else "" in
+        let ok = (why = "") in
+        let tolmax = List.fold_left (fun a (_, t) -> ZT.max a t) ZT.one parts in
+        let within = ok && not mnan && abs (List.length mtoks - nx) <= List.length parts && (List.length mtoks <> nx || close tolmax mtoks xs)
+                     && ZT.equal mfin (ZT.of_string fin) in
+        ((if within then obs else mline), verdict ok why, nx >= 2 && List.length parts >= 2)
+      end
+  | _ -> (mline, "BAD:implementation " ^ obs, false)
+
 let predict_seq (c : string) (obs : string) : string * string * bool =
+  match split_blank c with
+  | "list" :: fs ->
+      (match parse_list fs with
+       | Some parts -> predict_list parts obs
+       | None -> ("unknown-case", "BAD:unknown-case", false))
+  | _ ->
   match parse_case c with
   | None -> ("unknown-case", "BAD:unknown-case", false)
   | Some (p, d, kappa) ->
@@ -115,21 +178,23 @@ let predict_seq (c : string) (obs : string) : string * string * bool =
 let predict (c : string) (obs : string) : string * string * bool =
   match split_blank c with
   | "conc" :: g :: _rounds :: inner ->
+      let inner = (match inner with "meet" :: r -> r | r -> r) in
       let inner_c = String.concat " " inner in
       (match split_blank obs with
-       | [a; b; c3; d; e; same; fin; lo; hi; detail] ->
+       | [a; b; c3; d; e; same; fin; lo; hi; exh; detail] ->
            let (p, v, nt) = predict_seq inner_c (String.concat " " [a; b; c3; d; e]) in
            let why =
              if v <> "ok" then String.sub v 4 (String.length v - 4)
+             else if exh <> "1" then "shared profile: a consumer is told the profile is exhausted although it is not (wrong finish instant, operations left, or operations handed out afterwards) " ^ detail
              else if lo <> "1" then "concurrent first Next: an operation (or the start instant) is scheduled before the schedule could have started " ^ detail
              else if same <> "1" then "concurrent first Next: the tokens handed out are not the profile's tokens relative to one start instant " ^ detail
              else if fin <> "1" then "concurrent first Next: goroutines disagree on the finish instant or Left() <> 0 " ^ detail
              else if hi <> "1" then "concurrent first Next: start instant later than the return of the first Next " ^ detail
              else "" in
-           (p ^ " 1 1 1 1 -", verdict (why = "") why, nt && int_of_string g >= 2)
+           (p ^ " 1 1 1 1 1 -", verdict (why = "") why, nt && int_of_string g >= 2)
        | _ ->
            let (p, _, _) = predict_seq inner_c "" in
-           (p ^ " 1 1 1 1 -", "BAD:implementation " ^ obs, false))
+           (p ^ " 1 1 1 1 1 -", "BAD:implementation " ^ obs, false))
   | _ -> predict_seq c obs
 
 let () = run_cases predict
